@@ -48,7 +48,7 @@ static void put_str(std::string& o, const std::string& s) {
 static void put_ld(std::string& o, long double v) {
   char raw[16];
   memset(raw, 0, 16);
-  memcpy(raw, &v, sizeof(long double));
+  memcpy(raw, &v, 10);  // the 10 significant bytes of the x87 format; the padding is indeterminate
   o.append(raw, 16);
 }
 static std::string fresh_encode(const FreshReq& r) {
@@ -92,8 +92,8 @@ struct Cursor {
   long double ld() {
     char rawb[16];
     raw(rawb, 16);
-    long double v;
-    memcpy(&v, rawb, sizeof(long double));
+    long double v = 0;
+    memcpy(&v, rawb, 10);
     return v;
   }
 };
